@@ -369,15 +369,22 @@ func (e *Engine) verifyFunc(fc *FuncContract) (res *FuncResult) {
 			f.params[p.Name()] = v
 		}
 		// axioms of the package's contract file (assumptions; listed in the evidence)
+		// ... plus those of directly imported packages whose spec functions this contract mentions
 		for _, cf := range e.files {
+			apkg := fn.Pkg
 			if cf.Pkg != fc.Pkg {
-				continue
+				if len(cf.Axioms) == 0 || !e.mentionsPure(fc, fn, cf) {
+					continue
+				}
+				if apkg = e.ssaPkg(cf.Pkg); apkg == nil {
+					continue
+				}
 			}
 			for _, ax := range cf.Axioms {
 				if ax.Mode != "" && ax.Mode != fc.Mode {
 					continue
 				}
-				aenv := &SpecEnv{c: c, vars: map[string]Val{}, pkg: fn.Pkg}
+				aenv := &SpecEnv{c: c, vars: map[string]Val{}, pkg: apkg}
 				c.assume(aenv.evalBool(ax.Expr))
 				c.used[fmt.Sprintf("axiom %s.%s: %s", cf.Pkg[strings.LastIndex(cf.Pkg, "/")+1:], ax.Name, ax.Text)] = true
 			}
@@ -438,6 +445,11 @@ func (f *Frame) finish(nreq int) {
 			}
 			wv.T = wt
 			env.vars[w.Name] = wv
+		}
+		for i, as := range fc.Asserts {
+			g := env.evalBool(as.Expr)
+			f.oblige("assert", fmt.Sprint(i), g, r.pos, as.Props, as.Text)
+			c.assume(implies(f.reach, g))
 		}
 		f.curEnv = env
 		for i, en := range fc.Ensures {
@@ -511,4 +523,38 @@ func splitConj(x SExpr) []SExpr {
 		}
 	}
 	return []SExpr{x}
+}
+
+// mentionsPure: does the contract of fn (in a package importing cf's package) mention
+// one of cf's spec functions (qualified by the import name)?
+func (e *Engine) mentionsPure(fc *FuncContract, fn *ssa.Function, cf *ContractFile) bool {
+	imported := ""
+	for _, imp := range fn.Pkg.Pkg.Imports() {
+		if imp.Path() == cf.Pkg {
+			imported = imp.Name()
+		}
+	}
+	if imported == "" {
+		return false
+	}
+	var texts []string
+	add := func(cs []*Clause) {
+		for _, c := range cs {
+			texts = append(texts, c.Text)
+		}
+	}
+	add(fc.Requires)
+	add(fc.Ensures)
+	add(fc.Asserts)
+	for _, ls := range fc.Loops {
+		add(ls.Inv)
+		add(ls.Asserts)
+	}
+	all := strings.Join(texts, "\n")
+	for _, pf := range cf.Pures {
+		if strings.Contains(all, pf.Name+"(") {
+			return true
+		}
+	}
+	return false
 }
